@@ -72,4 +72,32 @@ let read_ilp ic (hdr : string list) : ilp * int =
     ({ i_max = (mx = "1"); i_cols = List.rev !cols; i_rhs = b }, ns)
   | _ -> failwith "ILP header expected"
 
+(* ULP block: header ["ULP"; max; ncols; nrows], then UC name obj lo up int, UR name sense rhs range k (col coef)* *)
+let read_ulp ic (hdr : string list) : ulp * string list * string list =
+  match hdr with
+  | [ "ULP"; mx; nc; nr ] ->
+    let nc = int_of_string nc and nr = int_of_string nr in
+    let cols = ref [] and rows = ref [] and cn = ref [] and rn = ref [] in
+    for _ = 1 to nc do
+      match next_tokens ic with
+      | Some ("UC" :: name :: o :: l :: u :: _) ->
+        cn := name :: !cn;
+        cols := { uc_obj = q_of_string o; uc_lo = q_of_string l; uc_up = q_of_string u } :: !cols
+      | _ -> failwith "UC line expected"
+    done;
+    for _ = 1 to nr do
+      match next_tokens ic with
+      | Some ("UR" :: name :: s :: rhs :: rg :: _k :: rest) ->
+        let rec ents = function
+          | i :: v :: r -> (nat_of_int (int_of_string i), q_of_string v) :: ents r
+          | [] -> []
+          | _ -> failwith "bad UR line" in
+        let sn = (match s with "L" -> SL | "G" -> SG | "E" -> SE | "R" -> SR | _ -> failwith "bad sense") in
+        rn := name :: !rn;
+        rows := { ur_sense = sn; ur_rhs = q_of_string rhs; ur_range = q_of_string rg; ur_ent = ents rest } :: !rows
+      | _ -> failwith "UR line expected"
+    done;
+    ({ u_max = (mx = "1"); u_cols = List.rev !cols; u_rows = List.rev !rows }, List.rev !cn, List.rev !rn)
+  | _ -> failwith "ULP header expected"
+
 let string_of_bool b = if b then "true" else "false"
